@@ -784,6 +784,24 @@ func gen(tier string, seed uint64) []runner.Scenario {
 		})
 	}
 
+	// 1b. error texts around the 4 MiB message limit: the status of a failed RPC is not a message
+	add("outcome/huge-error-text", func(a *acc) {
+		for _, n := range []int{4<<20 - 200, 4<<20 - 61, 4 << 20, 4<<20 + 1000} {
+			e := errors.New(strings.Repeat("e", n))
+			for _, ct := range allCT {
+				for _, k := range []int{0, 2} {
+					var sends [][]byte
+					for i := 0; i < k; i++ {
+						sends = append(sends, msgs[2])
+					}
+					a.n++
+					checkOutcome(tcase{ct: ct, req: msgs[2], sends: sends, ret: drpcerr.WithCode(e, 9), retTag: fmt.Sprintf("text-of-%d-bytes", n)}, a.fail)
+				}
+			}
+		}
+		a.smp = map[string]interface{}{"batch": a.id}
+	})
+
 	// 2. metadata headers against the reference percent-decoder
 	alpha := []byte{'%', '=', 'a', '4', '1', 'G', '+', ' '}
 	for fi, first := range alpha {
